@@ -211,6 +211,105 @@ theorem xstateIterGo_ok (enabled : Nat) (feats : List (Nat × Nat)) :
         | inl hmem => exact .inl hmem
         | inr hr => exact .inr ⟨by omega, hr.2⟩
 
+/-- what the bounded per-bit loop yields from `idx` on: the enabled indices in ascending order, each
+    with its entry of `features` -/
+def xstateExpected (enabled : Nat) (feats : List (Nat × Nat)) (idx todo : Nat) : List (Nat × Nat × Nat) :=
+  (List.range' idx todo).filterMap fun i =>
+    if enabled &&& (1 <<< i) ≠ 0 then feats[i]?.map (fun f => (i, f.1, f.2)) else none
+
+theorem xstateIterGo_eq (enabled : Nat) (feats : List (Nat × Nat)) :
+    ∀ (todo idx : Nat) (acc : List (Nat × Nat × Nat)), idx + todo ≤ 64 → idx + todo ≤ feats.length →
+      (xstateIterGo enabled feats todo idx acc).res = .ok (acc.reverse ++ xstateExpected enabled feats idx todo) := by
+  intro todo
+  induction todo with
+  | zero => intro idx acc _ _; simp [xstateIterGo, xstateExpected]; rfl
+  | succ t ih =>
+    intro idx acc h1 h2
+    unfold xstateIterGo
+    rw [if_neg (by omega)]
+    have hget : feats[idx]? = some feats[idx] := List.getElem?_eq_getElem (by omega)
+    unfold xstateExpected
+    rw [List.range'_succ, List.filterMap_cons]
+    split
+    · rename_i hbit
+      rw [hget]
+      simp only [hbit, ↓reduceIte, Option.map_some]
+      rw [ih _ _ (by omega) (by omega)]
+      simp [xstateExpected]
+    · rename_i hbit
+      simp only [hbit, ↓reduceIte]
+      rw [ih _ _ (by omega) (by omega)]
+      rfl
+
+theorem pairsOf_getElem? : ∀ (l : List Nat) (i : Nat), 2 * i + 1 < l.length →
+    (pairsOf l)[i]? = some (l.getD (2 * i) 0, l.getD (2 * i + 1) 0)
+  | [], i, h => by simp at h
+  | [_], i, h => by simp at h
+  | a :: b :: rest, 0, _ => by simp [pairsOf]
+  | a :: b :: rest, i + 1, h => by
+    have := pairsOf_getElem? rest i (by simp only [List.length_cons] at h; omega)
+    simp only [pairsOf, List.getElem?_cons_succ, this]
+    have e1 : 2 * (i + 1) = (2 * i) + 1 + 1 := by omega
+    rw [e1]
+    simp [List.getD_cons_succ]
+
+/-- bit `i` of the mask, as the code tests it -/
+theorem and_one_shiftLeft_ne_zero (m i : Nat) : m &&& (1 <<< i) ≠ 0 ↔ m.testBit i = true := by
+  rw [Nat.one_shiftLeft]
+  constructor
+  · intro h
+    cases hb : m.testBit i with
+    | true => rfl
+    | false =>
+      exfalso
+      apply h
+      apply Nat.eq_of_testBit_eq
+      intro j
+      rw [Nat.testBit_and, Nat.testBit_two_pow, Nat.zero_testBit]
+      by_cases hij : i = j
+      · subst hij; simp [hb]
+      · simp [hij]
+  · intro h h0
+    have : (m &&& 2 ^ i).testBit i = true := by rw [Nat.testBit_and, Nat.testBit_two_pow, h]; simp
+    rw [h0, Nat.zero_testBit] at this
+    cases this
+
+theorem filterMap_congr' {α β : Type} {f g : α → Option β} : ∀ {l : List α}, (∀ x ∈ l, f x = g x) → l.filterMap f = l.filterMap g
+  | [], _ => rfl
+  | a :: as, h => by
+    rw [List.filterMap_cons, List.filterMap_cons, h a List.mem_cons_self,
+      filterMap_congr' (fun x hx => h x (List.mem_cons_of_mem _ hx))]
+
+/-- **`XstateFeatureIter` is total and exact**: on the values of an `xstate_data` field (3 scalars,
+    then 64 (offset, size) pairs) the iterator ends without panic and yields exactly the set bits of
+    `enabled_features`, in ascending order, each with `features[i]` -/
+theorem xstateIter_spec (vals : List Nat) (h : 131 ≤ vals.length) :
+    (xstateIter vals).res = .ok ((List.range 64).filterMap fun i =>
+      if (fld vals 2).testBit i then some (i, fld vals (3 + 2 * i), fld vals (4 + 2 * i)) else none) := by
+  unfold xstateIter
+  have hlen : 64 ≤ (pairsOf (vals.drop 3)).length := by
+    rw [pairsOf_length]; simp only [List.length_drop]; omega
+  rw [xstateIterGo_eq _ _ _ _ _ (by decide) (by simpa [XSTATE_FEATURES_LEN] using hlen)]
+  simp only [List.reverse_nil, List.nil_append, xstateExpected, XSTATE_FEATURES_LEN]
+  rw [List.range_eq_range']
+  congr 1
+  apply filterMap_congr'
+  intro i hi
+  have hi' : i < 64 := by
+    have := List.mem_range'.mp hi
+    omega
+  have hp := pairsOf_getElem? (vals.drop 3) i (by simp only [List.length_drop]; omega)
+  rw [hp]
+  have hbit := and_one_shiftLeft_ne_zero (fld vals 2) i
+  by_cases hb : (fld vals 2).testBit i = true
+  · have := hbit.mpr hb
+    simp only [this, hb, ↓reduceIte, Option.map_some, ne_eq, not_false_eq_true]
+    simp only [fld, List.getD_eq_getElem?_getD, List.getElem?_drop]
+    congr 3 <;> (congr 2; omega)
+  · have hb' : (fld vals 2).testBit i = false := by simpa using hb
+    have : ¬ (fld vals 2 &&& 1 <<< i ≠ 0) := by rw [hbit]; simp [hb']
+    simp only [this, hb', ↓reduceIte, Bool.false_eq_true]
+
 theorem xstateIter_safe {B : Nat} (vals : List Nat) (h : 131 ≤ vals.length) : Safe B (xstateIter vals) := by
   unfold xstateIter
   refine xstateIterGo_safe _ _ _ _ _ (by decide) ?_
